@@ -1,10 +1,15 @@
 package main
 
 import (
+	"bytes"
+	"encoding/json"
 	"fmt"
 	"hash/fnv"
 	"math/rand"
+	"sort"
 	"strings"
+	"sync"
+	"time"
 )
 
 func init() { register("C19", checkC19) }
@@ -189,6 +194,19 @@ func checkC19(c *Ctx) {
 	c.Assume("numbers 2 and 5, the string, and the identifier names of the model are instantiated per seed (non-negative numbers that print as written, non-numeric strings, ASCII identifiers that are no keywords)")
 	c.Assume("error messages are not compared; a runtime error must leave stdout empty (no body ran)")
 	pool := c.Pool()
+
+	// ---- literal patterns as written (MC_MatchLit), alongside the case-list families below
+	c.specDir()
+	litDone := make(chan any, 1)
+	go func() {
+		defer func() { litDone <- recover() }()
+		c19Literals(c, pool)
+	}()
+	defer func() {
+		if p := <-litDone; p != nil {
+			panic(p)
+		}
+	}()
 
 	// ---- premise: `==` on the scalars of the model, on the real code
 	type pair struct{ v, lit string }
@@ -423,4 +441,369 @@ func checkC19(c *Ctx) {
 	if knownWitness != "" {
 		c.Set("shortest_witness_of_known_deviation", knownWitness)
 	}
+}
+
+// ---------------------------------------------------------------------------
+// Literal patterns as written in the source (spec/JqMatchLit.tla, MC_MatchLit.tla):
+// every literal spelling at every position of a case list against every subject.
+// Subjects are JSON input values (one input array per run, the program's rule
+// runs once per element), so they do not pass through the literal syntax.
+
+type c19lObs struct {
+	Cls   string     `json:"cls"`
+	Sel   int        `json:"sel"`
+	Lines [][]string `json:"lines"`
+}
+
+type c19lArr struct {
+	K string    `json:"k"`
+	S []string  `json:"s"`
+	T []string  `json:"t"`
+	A []c19lArr `json:"a"`
+}
+
+type c19lGroup struct {
+	Exp   []c19lObs  `json:"exp"`
+	Subjs [][]string `json:"subjs"`
+	Arrs  []c19lArr  `json:"arrs"`
+}
+
+type c19lVec struct {
+	Kind   string      `json:"kind"`
+	Lit    []string    `json:"lit"`
+	Eq     [][]string  `json:"eq"`
+	Ne     [][]string  `json:"ne"`
+	Shape  string      `json:"shape"`
+	Src    []string    `json:"src"`
+	Lits   [][]string  `json:"lits"`
+	Groups []c19lGroup `json:"groups"`
+}
+
+// JSON text of a scalar subject: kind letter, then bytes / spelling
+func c19lScalarJSON(enc []string) string {
+	if len(enc) == 0 {
+		infra("C19: empty subject encoding")
+	}
+	body := symsToBytes(enc[1:])
+	switch enc[0] {
+	case "s":
+		var bb bytes.Buffer
+		e := json.NewEncoder(&bb)
+		e.SetEscapeHTML(false)
+		if err := e.Encode(string(body)); err != nil {
+			infra("C19: %v", err)
+		}
+		return strings.TrimSuffix(bb.String(), "\n")
+	case "n", "w":
+		return string(body)
+	}
+	infra("C19: unknown subject kind %q", enc[0])
+	return ""
+}
+
+func c19lArrJSON(d *c19lArr) string {
+	switch d.K {
+	case "str":
+		return c19lScalarJSON(append([]string{"s"}, d.S...))
+	case "num":
+		return c19lScalarJSON(append([]string{"n"}, d.T...))
+	case "word":
+		return c19lScalarJSON(append([]string{"w"}, d.T...))
+	case "arr":
+		parts := make([]string, len(d.A))
+		for i := range d.A {
+			parts[i] = c19lArrJSON(&d.A[i])
+		}
+		return "[" + strings.Join(parts, ",") + "]"
+	}
+	infra("C19: unknown subject kind %q", d.K)
+	return ""
+}
+
+func c19lLines(o *c19lObs) string {
+	var sb strings.Builder
+	for _, l := range o.Lines {
+		sb.Write(symsToBytes(l))
+		sb.WriteByte('\n')
+	}
+	return sb.String()
+}
+
+const c19lPrelude = "function m(k) { print \"m\", k; return k }\n"
+
+func c19Literals(c *Ctx, pool *Pool) {
+	c.Assume("literal patterns as written: string literals (either quote, escapes \\n \\t \\\\ only; a literal whose evaluation is itself an error is C13's), number literals digit+ ('.' digit+)?, true, false, null; regex literals and every other expression used as a pattern are outside the model")
+	c.Assume("the subjects of the literal family are JSON input values (the rule runs once per element of the input array); `$ == literal` is first confirmed on the real code for every (subject, literal) pair the match runs rely on, and a run that depends on a deviating pair is skipped (C05 owns `==`)")
+
+	type subj struct {
+		key  string // JSON text
+		want string // expected stdout contribution
+	}
+	var mu sync.Mutex
+	// premise: per literal source text, the subjects (JSON text) on which `==` deviates on the real code; "*" = the run failed
+	premise := map[string]map[string]bool{}
+	var nEqRuns, nEqPairs, nEqBad int
+	shuffle := func(key string, n int, swap func(i, j int)) {
+		h := fnv.New64a()
+		fmt.Fprintf(h, "%d|lit|%s", c.Seed, key)
+		rand.New(rand.NewSource(int64(h.Sum64()))).Shuffle(n, swap)
+	}
+	input := func(ss []subj) []byte {
+		var sb strings.Builder
+		sb.WriteByte('[')
+		for i := range ss {
+			if i > 0 {
+				sb.WriteString(", ")
+			}
+			sb.WriteString(ss[i].key)
+		}
+		sb.WriteString("]\n")
+		return []byte(sb.String())
+	}
+
+	type eqMeta struct {
+		lit string
+		ss  []subj
+	}
+	eqMetas := map[int]*eqMeta{}
+	eqStream := pool.NewStream(func(j *Job, r Result) {
+		mu.Lock()
+		m := eqMetas[j.N]
+		delete(eqMetas, j.N)
+		bad := map[string]bool{}
+		premise[m.lit] = bad
+		mu.Unlock()
+		nEqRuns++
+		nEqPairs += len(m.ss)
+		lines := strings.Split(string(r.Stdout), "\n")
+		if r.Class != "ok" || len(lines) != len(m.ss)+1 {
+			bad["*"] = true
+			nEqBad += len(m.ss)
+			return
+		}
+		for i := range m.ss {
+			if lines[i]+"\n" != m.ss[i].want {
+				bad[m.ss[i].key] = true
+				nEqBad++
+			}
+		}
+	})
+
+	var nProg, nBatchSubj, nSingles, nLitHit, nErrOK, nSkip int
+	perShape := map[string]int{}
+	nSample := 0
+	type mMeta struct {
+		v      *c19lVec
+		prog   string
+		ss     []subj    // batch
+		single *subj     // or one subject with several admitted outcomes
+		exp    []c19lObs // for single
+		hits   int
+	}
+	mMetas := map[int]*mMeta{}
+	mStream := pool.NewStream(func(j *Job, r Result) {
+		mu.Lock()
+		m := mMetas[j.N]
+		delete(mMetas, j.N)
+		mu.Unlock()
+		if r.Class == "budget" || r.Class == "timeout" {
+			nSkip++
+			return
+		}
+		rep := func(why, subject string, want any) map[string]any {
+			return map[string]any{"program": m.prog, "input": string(j.Files[0].Data), "subject": subject, "input_with_only_this_subject": "[" + subject + "]", "expected": want,
+				"got_class": r.Class, "got_stdout": string(r.Stdout), "got_msg": r.ErrMsg, "why": why,
+				"note": "a literal pattern matches when `$ == literal` (the literal's VALUE: escapes processed, number read in base ten); the rule runs once per element of the input array, one output line (after the m-lines of a marker body) per element"}
+		}
+		if r.Class == "crash" || r.Class == "panic" {
+			c.Violation("match-literal-crash", rep("the run died", "", nil))
+			return
+		}
+		if m.single != nil {
+			ok := false
+			for i := range m.exp {
+				o := &m.exp[i]
+				if o.Cls == "runtime" {
+					ok = ok || (r.Class == "runtime" && len(r.Stdout) == 0)
+				} else {
+					ok = ok || (r.Class == "ok" && string(r.Stdout) == c19lLines(o))
+				}
+			}
+			if !ok {
+				c.Violation("match-literal", rep("none of the admitted outcomes", m.single.key, m.exp))
+				return
+			}
+			nSingles++
+			if r.Class == "runtime" {
+				nErrOK++
+			}
+			return
+		}
+		var want strings.Builder
+		for i := range m.ss {
+			want.WriteString(m.ss[i].want)
+		}
+		out := string(r.Stdout)
+		if r.Class != "ok" || out != want.String() {
+			// the first element whose lines differ
+			pos := 0
+			for i := range m.ss {
+				w := m.ss[i].want
+				if !strings.HasPrefix(out[pos:], w) {
+					got := out[pos:]
+					if k := strings.Count(w, "\n"); k > 0 {
+						parts := strings.SplitAfterN(got, "\n", k+1)
+						if len(parts) > k {
+							parts = parts[:k]
+						}
+						got = strings.Join(parts, "")
+					}
+					c.Violation("match-literal", rep(fmt.Sprintf("element %d of the input: expected output %q, got %q (class %s)", i, w, got, r.Class), m.ss[i].key, w))
+					return
+				}
+				pos += len(w)
+			}
+			c.Violation("match-literal", rep("output continues after the last element, or the run failed after it", "", want.String()))
+			return
+		}
+		nProg++
+		nBatchSubj += len(m.ss)
+		nLitHit += m.hits
+		perShape[m.v.Shape]++
+		c.Case(m.prog, m.hits > 0)
+		if m.hits > 0 && nSample < 2 && strings.Contains(m.prog, "\\") {
+			nSample++
+			c.Sample(map[string]any{"program": m.prog, "input": string(j.Files[0].Data), "stdout": out})
+		}
+	})
+
+	nextID := 0
+	var premiseOnce sync.Once
+	onVec := func(raw []byte) {
+		v := &c19lVec{}
+		VecDecode(raw, v)
+		if v.Kind == "eq" {
+			lit := string(symsToBytes(v.Lit))
+			var ss []subj
+			for _, e := range v.Eq {
+				ss = append(ss, subj{c19lScalarJSON(e), "true\n"})
+			}
+			for _, e := range v.Ne {
+				ss = append(ss, subj{c19lScalarJSON(e), "false\n"})
+			}
+			sort.Slice(ss, func(i, j int) bool { return ss[i].key < ss[j].key })
+			shuffle(lit, len(ss), func(i, j int) { ss[i], ss[j] = ss[j], ss[i] })
+			mu.Lock()
+			id := nextID
+			nextID++
+			eqMetas[id] = &eqMeta{lit, ss}
+			mu.Unlock()
+			eqStream.Submit(Job{Kind: "run", Prog: []byte("{ print $ == " + lit + " }"), Files: []FileIn{{Name: "in.json", Data: input(ss)}}, N: id})
+			return
+		}
+		// every "eq" vector belongs to an initial state: they have all been emitted before the first "match" vector
+		premiseOnce.Do(eqStream.Wait)
+		src := string(symsToBytes(v.Src))
+		prog := c19lPrelude + "{ print " + src + " }"
+		var bads []map[string]bool
+		for _, l := range v.Lits {
+			mu.Lock()
+			b, ok := premise[string(symsToBytes(l))]
+			mu.Unlock()
+			if !ok {
+				infra("C19: no `==` premise for the literal %s", symsToBytes(l))
+			}
+			bads = append(bads, b)
+		}
+		depends := func(key string) bool {
+			for _, b := range bads {
+				if b["*"] || b[key] {
+					return true
+				}
+			}
+			return false
+		}
+		submit := func(m *mMeta, in []byte) {
+			mu.Lock()
+			id := nextID
+			nextID++
+			mMetas[id] = m
+			mu.Unlock()
+			mStream.Submit(Job{Kind: "run", Prog: []byte(prog), Files: []FileIn{{Name: "in.json", Data: in}}, N: id})
+		}
+		var batch []subj
+		hits := 0
+		nCases := strings.Count(src, " => ")
+		for gi := range v.Groups {
+			g := &v.Groups[gi]
+			calm := len(g.Exp) == 1 && g.Exp[0].Cls == "ok"
+			var keys []string
+			for _, e := range g.Subjs {
+				keys = append(keys, c19lScalarJSON(e))
+			}
+			for i := range g.Arrs {
+				keys = append(keys, c19lArrJSON(&g.Arrs[i]))
+			}
+			for _, k := range keys {
+				if depends(k) {
+					nSkip++
+					continue
+				}
+				if calm {
+					batch = append(batch, subj{k, c19lLines(&g.Exp[0])})
+					if sel := g.Exp[0].Sel; sel > 0 && (v.Shape == "only" || sel < nCases) {
+						hits++ // selected through a literal (the last case of every shape but "only" is the catch-all)
+					}
+					continue
+				}
+				s := subj{key: k}
+				submit(&mMeta{v: v, prog: prog, single: &s, exp: g.Exp}, input([]subj{s}))
+			}
+		}
+		sort.Slice(batch, func(i, j int) bool { return batch[i].key < batch[j].key })
+		shuffle(src, len(batch), func(i, j int) { batch[i], batch[j] = batch[j], batch[i] })
+		submit(&mMeta{v: v, prog: prog, ss: batch, hits: hits}, input(batch))
+	}
+
+	t0 := time.Now()
+	maxLit, maxSubj, big, workers := "3", "2", "FALSE", 6
+	if c.Thorough() {
+		maxLit, big, workers = "4", "TRUE", 12
+	}
+	c.TLC(TLCOpt{Module: "MC_MatchLit",
+		Cfg: cfgText("INIT Init", "NEXT Next", "CONSTANTS", "MaxLit = "+maxLit, "MaxSubj = "+maxSubj, "Big = "+big,
+			"INVARIANT Laws", "INVARIANT Vec", "CHECK_DEADLOCK FALSE"),
+		OnVec: onVec, Workers: workers, Heap: "4g"})
+	premiseOnce.Do(eqStream.Wait)
+	tTLC := time.Since(t0)
+	mStream.Wait()
+	c.Set("literal_wall_tlc_then_total", fmt.Sprintf("%.1fs %.1fs", tTLC.Seconds(), time.Since(t0).Seconds()))
+
+	c.Set("literal_rule", "TLC (MC_MatchLit) enumerates literal spellings (string bodies up to "+maxLit+" bytes over a \\ n t with valid escapes plus numeric / blank / upper-case strings, in both quotes; number spellings with leading and trailing zeros; true false null) x 8 case-list shapes "+
+		"(alone, only case, before / after a partner literal in the same case, in a later case, first / second element of an array pattern next to a binding, nested twice) x partner literals, against every subject "+
+		"(all strings up to "+maxSubj+" bytes over a \\ n t newline tab, every string literal body and its value, numeric strings, numbers, true false null, 5 arrays); expectation: JqMatchLit (value the literal denotes, `==` of DESIGN.md 3.4); "+
+		"one real run per case list over all calm subjects as one JSON input array, one run per (case list, subject) where a runtime error is admitted")
+	c.Set("literal_eq_premise_runs", nEqRuns)
+	c.Set("literal_eq_premise_pairs", nEqPairs)
+	c.Set("literal_eq_premise_deviations", nEqBad)
+	if nEqBad > 0 {
+		var devs []string
+		for lit, bad := range premise {
+			for k := range bad {
+				devs = append(devs, k+" == "+lit)
+			}
+		}
+		sort.Strings(devs)
+		if len(devs) > 60 {
+			devs = devs[:60]
+		}
+		c.Set("literal_eq_premise_deviating_pairs", devs)
+	}
+	c.Set("literal_programs", nProg)
+	c.Set("literal_programs_per_shape", perShape)
+	c.Set("literal_subject_evaluations", nBatchSubj+nSingles)
+	c.Set("literal_selected_through_a_literal", nLitHit)
+	c.Set("literal_single_runs", nSingles)
+	c.Set("literal_runtime_error_admitted", nErrOK)
+	c.Set("literal_skipped", nSkip)
 }
